@@ -65,9 +65,6 @@ void harness(void) {
 #ifdef WIN_BASE	/* args entry points, units with a division: symbolic offset in a concrete window (stated bound) */
 	V_ASSUME(data >= (uint64_t)(WIN_BASE) && data - (uint64_t)(WIN_BASE) < (uint64_t)(WIN_SIZE));
 #endif
-#ifdef KF_TIMER_USEC
-	V_ASSUME(!(UNIT == 2 && (data % 1000000ul) != 0));	/* known finding timer-usec (blocking clause) */
-#endif
 	tp_event_t ev = { .event = TP_EV_TIMER, .flags = flags, .fflags = fflags, .data = data };
 	int r;
 	int api = (API_EV ? 2 : 0) + ((PRE && IN.use_enable) ? 1 : 0);
@@ -97,7 +94,17 @@ void harness(void) {
 	for (int i = base_ctl; i < tpev_n_ctl; i++) if (IN.env.ctl_err[i] != 0) env_ok = 0;
 	for (int i = base_set; i < tpev_n_set; i++) if (IN.env.set_err[i] != 0) env_ok = 0;
 
-	if (representable && env_ok)
+	/* Known finding timer-usec (findings/timer-usec.md): microsecond values with a non-zero sub-second part are refused.
+	 * Blocking clause for exactly that input class; it only exempts the "is accepted" obligation - everything else
+	 * (exact value when accepted, nothing left installed when refused) is still checked for those inputs.
+	 * (Stated on want_nsec rather than as an input assumption: `data % 10^6 == 0` as an assumption made every us job
+	 * time out.) */
+#if defined(KF_TIMER_USEC) && UNIT == 2
+#define KF_EXEMPT (want_nsec != 0)
+#else
+#define KF_EXEMPT 0
+#endif
+	if (representable && env_ok && !KF_EXEMPT)
 		V_ASSERT(r == 0, "a representable timer value is accepted when the kernel calls succeed");
 	if (!representable)
 		V_ASSERT(r != 0, "a value whose seconds do not fit time_t is refused");
@@ -143,7 +150,11 @@ void harness(void) {
 		if (IN.abstime) V_WITNESS("absolute timer accepted");
 		if (flags == 0) V_WITNESS("periodic timer accepted");
 		if (want_sec > 0xffffffffull) V_WITNESS("seconds above 2^32 accepted");
+#if defined(KF_TIMER_USEC) && UNIT == 2 && defined(WIN_BASE)
+		V_WITNESS("timer accepted");	/* a window need not contain a multiple of 10^6 */
+#else
 		V_WITNESS_MUST("timer accepted");
+#endif
 	} else {
 		/* refused: nothing may stay installed */
 		V_ASSERT(ud->tpdata == 0, "refused timer leaves no state in the udata");
